@@ -230,6 +230,9 @@ func join(xs []string) string {
 }
 
 // State is the canonical projection of the module state the observation lines carry (hx.Stater).
+// GhostChance: now and then an operation is executed on a context that is thrown away (hx.Ghoster).
+func (r *R) GhostChance() (int, int) { return 1, 14 }
+
 func (r *R) State(ctx sdk.Context) string { return r.state(ctx) }
 
 // Continuation implements hx.Continuer: one begin block at every future height at which an open
